@@ -1,7 +1,8 @@
 // C10 (a): conditional inclusion.  The REAL preprocess2 / skip_cond_incl / skip_cond_incl2 /
 // skip_line / push_cond_incl of preprocess.c run over a SYMBOLIC directive sequence of NITEMS
 // lines, built as real, individually allocated Token lists (no tokenizer).  Line alphabet:
-//   #if b | #ifdef N | #ifndef N | #elif b | #else | #endif | text_i    (b, N in {X,Y} symbolic;
+//   #if b | #ifdef N | #ifndef N | #elif b | #else | #endif | text_i | `#` NEWLINE `else`|`endif` (null directive, then a text
+//   line that starts with a directive name)    (b, N in {X,Y} symbolic;
 //   which of X,Y are defined is symbolic) — optionally one trailing junk token `J` on
 //   #ifdef/#ifndef/#else/#endif lines.  Shorter sequences are covered: text lines are neutral.
 // eval_const_expr is cut (--replace-calls) to return the bit carried by the operand token (its
@@ -50,6 +51,7 @@ static char sp_text[NITEMS][3];
 static char sp_J[] = "J";
 static Token *first_tok, *last_tok;
 static Token *line_tok[NITEMS + 1];   // first token of line i; [NITEMS] = EOF
+static Token *text_tok[NITEMS];       // the token a selected text line emits (differs from line_tok[i] for the `#`-prefixed variant)
 static Token *junk_tok[NITEMS];       // trailing junk token of line i (or NULL)
 static Token *third_tok[NITEMS];      // third token of an opener line (what skip_cond_incl2 is handed)
 
@@ -68,11 +70,22 @@ static Token *build(void) {
   first_tok = last_tok = NULL;
   for (int i = 0; i < NITEMS; i++) {
     int kind = IN.it[i].kind;
-    junk_tok[i] = NULL; third_tok[i] = NULL; line_tok[i] = NULL;
+    junk_tok[i] = NULL; third_tok[i] = NULL; line_tok[i] = NULL; text_tok[i] = NULL;
     if (i >= nlines) continue;
+#ifndef NO_NULLD
+    if (kind == I_TEXT && IN.it[i].name) {
+      // a null directive (`#` alone on its line) followed by a TEXT line that happens to start with a directive name:
+      //   #
+      //   else            (or: endif)
+      // the second line is ordinary text (6.10p2: a directive name follows its `#` on the same line)
+      line_tok[i] = mk(i, TK_PUNCT, "#", 1, true);
+      text_tok[i] = IN.it[i].bit ? mk(i, TK_IDENT, "endif", 5, true) : mk(i, TK_IDENT, "else", 4, true);
+      continue;
+    }
+#endif
     if (kind == I_TEXT) {
       sp_text[i][0] = 't'; sp_text[i][1] = '0' + i; sp_text[i][2] = 0;
-      line_tok[i] = mk(i, TK_IDENT, sp_text[i], 2, true);
+      line_tok[i] = text_tok[i] = mk(i, TK_IDENT, sp_text[i], 2, true);
       continue;
     }
     line_tok[i] = mk(i, TK_PUNCT, "#", 1, true);
@@ -189,6 +202,9 @@ static void assume_shape(bool allow_junk) {
     __CPROVER_assume(IN.it[i].kind < (nlines == NITEMS ? I_DEFINE : I_NKINDS) && IN.it[i].bit <= 1 && IN.it[i].name <= 1 && IN.it[i].junk <= 1);
     int k = IN.it[i].kind;
     if (!allow_junk || k == I_IF || k == I_ELIF || k == I_TEXT || k == I_DEFINE) __CPROVER_assume(IN.it[i].junk == 0);
+#ifdef NO_NULLD
+    if (k == I_TEXT) __CPROVER_assume(IN.it[i].name == 0);      // alphabet without the null-directive variant
+#endif
   }
   __CPROVER_assume(IN.defined[0] <= 1 && IN.defined[1] <= 1);
 }
@@ -257,8 +273,8 @@ static void run_select(bool allow_junk) {
     if (junk_seen) continue;
     if (t->kind != TK_EOF && t->val == verif_spell("J")) { junk_seen = true; continue; }
     if (ref_sel[i]) {
-      VASSERT(t == line_tok[i], "every selected text line is emitted, in order, and nothing else");
-      if (t != line_tok[i]) return;
+      VASSERT(t == text_tok[i], "every selected text line is emitted, in order, and nothing else (a line after a null directive `#` is text even if it starts with a directive name)");
+      if (t != text_tok[i]) return;
       t = t->next;
     }
   }
